@@ -171,6 +171,52 @@ def odd_command_case(args):
         sc.close()
 
 
+def unformable_rerun_case(args):
+    """history: a workflow completes; it is started again with a parameter (or tag) value that is now empty, for a task whose
+    outputs exist from the first run (their names do not depend on the value): the task cannot be formed, so the program must
+    exit non-zero and report no completion, and no dependant may execute -- existing outputs do not excuse the failure"""
+    seed, i = args
+    rng = random.Random(seed * 32452909 + i)
+    def build(val):
+        sp = t3.Spec(maxtasks=rng.choice([1, 2, 3]), bufsize=128)
+        vals = ["first", val, "third"][:rng.choice([2, 3])] if i % 2 else [val]
+        names = ["k%d" % j for j in range(len(vals))]
+        a = sp.proc(t3.RawProc("src", "echo {p:val} > {o:out}", ins=[], pars=[("val", ("V", vals)), ("name", ("V", names))], outs=[("out", "src.{p:name}.txt")]))
+        sp.proc(t3.RawProc("dep", "cat {i:in} > {o:out} && echo ran >> ../dep.ran", ins=[("in", [(a, "out")])], outs=[("out", "{i:in}.dep")]))
+        return sp
+    st = random.getstate()
+    rs = rng.getstate()
+    sp1 = build("hello")
+    rng.setstate(rs)
+    sp2 = build("")
+    sc = t3.Scratch()
+    try:
+        sc.plant(sp1.files)
+        r1 = t3.run_impl(sc, sp1, timeout=60)
+        problems = []
+        if r1["rc"] != 0 or not r1["returned"]:
+            problems.append(("unexpected-failure", "first run: exit %s: %s" % (r1["rc"], r1["stderr"][-200:])))
+        else:
+            for p in list(r1["fs"]):
+                if p.endswith(".dep") or p == "dep.ran" or p.endswith(".dep.audit.json"):
+                    os.remove(os.path.join(sc.work, p))
+            r2 = t3.run_impl(sc, sp2, timeout=60)
+            what = "run again with an empty value for {p:val} (outputs of the task exist from the first run)"
+            if r2["timed_out"]:
+                problems.append(("hang", what + ": does not terminate"))
+            if r2["rc"] == 0:
+                problems.append(("silent-failure", what + ": the program exits 0%s" % (" and reports completion" if r2["returned"] else "")))
+            elif r2["returned"]:
+                problems.append(("completion-reported", what + ": Run returned"))
+            dep_for_empty = "src.k%d.txt.dep" % (1 if i % 2 else 0)
+            if dep_for_empty in r2["fs"]:
+                problems.append(("dependant-executed", what + ": the dependant of the task that cannot be formed executed (%s)" % dep_for_empty))
+        return {"spec": sp2.text(), "bufsize": 128, "problems": problems, "ntasks": 2, "rc": r1["rc"], "stderr": r1["stderr"][-300:],
+                "yield": None, "wall": r1["wall"], "mode": "unformable-on-rerun", "gofunc": False, "status": "fail"}
+    finally:
+        sc.close()
+
+
 def run(rep, tier, seed):
     proved = vlib.prove(rep, MODULE, THEOREMS)
     ok, msg = vlib.build_ocaml()
@@ -179,11 +225,12 @@ def run(rep, tier, seed):
     n = 120 if tier == "quick" else 2400
     results = [r for r in t3.run_many(case, [(seed, i) for i in range(n)]) if r]
     results += [r for r in t3.run_many(rerun_case, [(seed, i) for i in range(n // 5)]) if r]
+    results += t3.run_many(unformable_rerun_case, [(seed, i) for i in range(n // 10)])
     results += t3.run_many(odd_command_case, [(seed, i) for i in range(n // 10)])
     t3.report_t3(rep, MODULE, proved, results, "T3 failure injection")
     rep.cov["evaluations"] = len(results)
     rep.cov["distinct_nontrivial"] = len({r["spec"] for r in results if r["ntasks"] >= 2})
-    rep.cov["rule"] = "random workflows in which one task (chosen among those the model executes) fails in one of five ways (non-zero exit before writing / after a partial write / after writing everything, output omitted, killed by SIGKILL), as a shell command or a Go function, while sibling processes are kept busy; plus task-formation failures (empty parameter value, invalid character in an output path); histories in which the command wrote every output before it failed and the workflow is started again as it is; failing commands longer than the 128 kB exec-argument limit and stream writers killed by SIGPIPE; monitor: exit status non-zero, no completion marker, the failing task's outputs absent, no command outside the model's allowed set (no dependants), every finalized file has the model's content; non-trivial = at least two tasks in the workflow"
+    rep.cov["rule"] = "random workflows in which one task (chosen among those the model executes) fails in one of five ways (non-zero exit before writing / after a partial write / after writing everything, output omitted, killed by SIGKILL), as a shell command or a Go function, while sibling processes are kept busy; plus task-formation failures (empty parameter value, invalid character in an output path); histories in which a completed workflow is started again with an empty parameter value for a task whose outputs exist; histories in which the command wrote every output before it failed and the workflow is started again as it is; failing commands longer than the 128 kB exec-argument limit and stream writers killed by SIGPIPE; monitor: exit status non-zero, no completion marker, the failing task's outputs absent, no command outside the model's allowed set (no dependants), every finalized file has the model's content; non-trivial = at least two tasks in the workflow"
     rep.cov["samples"] = [results[0]["spec"]]
     modes = {}
     for r in results:
